@@ -304,8 +304,12 @@ class BuiltinsMixin(object):
                 return x
             if x.kind == "bool":
                 return to_int(x)
-            # truncation toward zero
-            return SV(z3.If(x.t >= 0, z3.ToInt(x.t), -z3.ToInt(-x.t)), "int")
+            # truncation toward zero, as a fresh integer with linear bounds (no ToInt term)
+            t = self.E.fresh_int("trunc")
+            tr = z3.ToReal(t.t)
+            self.E.axiom(z3.And(z3.Implies(x.t >= 0, z3.And(tr <= x.t, x.t < tr + 1)),
+                                z3.Implies(x.t < 0, z3.And(tr - 1 < x.t, x.t <= tr))))
+            return t
         if isinstance(x, bool):
             return int(x)
         if isinstance(x, int):
@@ -318,6 +322,13 @@ class BuiltinsMixin(object):
             except ValueError:
                 self.raise_("ValueError", "invalid literal for int() with base 10: %r" % x)
         if isinstance(x, FmtStr):
+            ns = x.nums()
+            if len(ns) == 1 and all(isinstance(p, str) and p.strip() == "" for p in x.parts if isinstance(p, str)):
+                v = ns[0].value
+                if isinstance(v, SV) and v.kind == "int" or isinstance(v, int):
+                    return v  # A5: int(numeral of an integer n) == n
+                # the numeral of a non-integer value has a fractional part or exponent: int() rejects it
+                raise Undecided("int() of a real-valued numeral")
             raise Undecided("int() of formatted string")
         self.raise_("TypeError", "int() argument must be a string or a number, not '%s'" % type(x).__name__)
 
@@ -624,12 +635,13 @@ class BuiltinsMixin(object):
         if isinstance(x, SV):
             if x.kind != "real":
                 return to_int(x)
-            # round half to even over the reals
-            fl = z3.ToInt(x.t)
-            fr = x.t - z3.ToReal(fl)
-            half = z3.RealVal("1/2")
-            r = z3.If(fr < half, fl, z3.If(fr > half, fl + 1, z3.If(fl % 2 == 0, fl, fl + 1)))
-            return SV(r, "int")
+            # round half to even over the reals, relationally: r is the integer with |x - r| <= 1/2, even on ties
+            r = self.E.fresh_int("round")
+            k = self.E.fresh_int("half")
+            self.E.axiom(z3.And(2 * (x.t - z3.ToReal(r.t)) <= 1, 2 * (z3.ToReal(r.t) - x.t) <= 1,
+                                z3.Implies(z3.Or(2 * (x.t - z3.ToReal(r.t)) == 1, 2 * (z3.ToReal(r.t) - x.t) == 1),
+                                           r.t == 2 * k.t)))
+            return r
         if isinstance(x, (int,)):
             return x
         if isinstance(x, (Fraction, float)):
